@@ -26,36 +26,90 @@ RULE = ("life: calls are made through hass.services.async_call or by a script (s
         "the function suspends in task.sleep between receiving and using its arguments; same duration or first-started-"
         "finishes-first) and from load(file with 1-3 @service functions, 1-2 names each, supports_response "
         "none|optional|only) / unload / run-time define|redefine|delete inside driver functions / call(data, "
-        "return_response) over contexts a,b,c, services pyscript.s1, pyscript.s2, test.s3, variables f,g,h; the bulk avoids "
+        "return_response) over contexts a,b,c, services pyscript.s1, pyscript.s2, test.s3, pyscript.s_1x, my_dom.do_it2 (1-3 per "
+        "function), variables f,g,h; a function has one of five parameter lists (**kw | x=None,*,y=0,**kw | x,y=2,**kw | six named "
+        "parameters and no **kw | *args,**kw), one of three doc-string forms (plain | yaml description without fields | yaml "
+        "comment only) and, with p=0.2, an @event_trigger beside its @service decorators; call data is drawn from 13 dicts "
+        "incl. keys that are parameters, keys that no parameter takes, the colliding keys trigger_type / context, an "
+        "explicit None, and ret=none|list (the function answers None / a list); the bulk avoids "
         "the three open hazard situations (four more were repaired and are ordinary cases now), dedicated scenario families inject exactly one of them each; every case is "
-        "run under one subsystem and alternates legacy/new.  out: entry point x subsets of {context, blocking, "
-        "return_response, limit, plain} with right- and wrong-typed values x target supports_response.  "
+        "run under one subsystem and alternates legacy/new.  Scenario families besides the hazards: overlap, owner, answers (falsy dicts), "
+        "answers-not-dict, binding (two triples of parameter lists x 8 data dicts x with/without response x Home Assistant / "
+        "script / overlapping), names (three services incl. foreign domains + trigger + yaml doc strings on one function); "
+        "four oracle-only probes with names that differ only in letter case.  out: entry point x subsets of {context, blocking, "
+        "return_response, limit, plain} with right-typed, wrong-typed and falsy-but-wrong-typed values (0, '', None, {}, 0.0) "
+        "x target supports_response.  "
         "Non-trivial = at least one registration; distinct by payload.")
 ASSUMPTIONS = [
     "CPython drops a function object as soon as its last reference goes (the harness calls gc.collect() and settles after every step)",
     "Home Assistant's service registry is a dictionary; async_register overwrites; response validation as in homeassistant.core",
     "definition order = generation number; a context's file-level code runs only while the context is being loaded",
     "the evaluator name 'file.x.func' is never also the name of a global context",
+    "python's binding of keyword arguments to a parameter list (required given, no unknown keyword unless **kwargs) - the model's bindOK states it, CPython performs it",
+    "a definition is identified by the 'gen N' text in its doc string (so every generated function has a non-empty doc string)",
 ]
 TRUSTED = ["harness/run_C12.py (script generation, wrappers around Function.service_register/service_remove and "
            "ServiceRegistry.async_call for observation, canonicalisation, the Python rendering of the declaration rules)",
            "modelled not verified: reference counting / weakref.finalize timing, asyncio task order of the manager start "
            "tasks (taken from the observed run), hass.services"]
 
-SVCS = ["pyscript.s1", "pyscript.s2", "test.s3"]
+# service names: two ordinary ones, a foreign domain, digits / underscores inside the name, a foreign domain with both
+SVCS = ["pyscript.s1", "pyscript.s2", "test.s3", "pyscript.s_1x", "my_dom.do_it2"]
 CTXS = ["a", "b", "c"]
 VARS = ["f", "g", "h"]
 FNS = ["opA", "opB"]
 RESPS = ["none", "optional", "only"]
+# call data: plain keys, keys that are parameters of some signatures (x, y), keys that collide with what the handler
+# itself passes (trigger_type, context), and `ret` = which answer the function gives
 DATA = [{}, {"x": 1}, {"x": "v", "y": [1, 2]}, {"n": None, "d": {"k": 1.5}}, {"flag": True},
-        {"ret": "empty"}, {"ret": "falsy", "x": 0}, {"ret": "empty", "y": "q"}]
-RETS = {None: None, "empty": {}, "falsy": {"count": 0, "name": "", "items": []}}
+        {"ret": "empty"}, {"ret": "falsy", "x": 0}, {"ret": "empty", "y": "q"},
+        {"ret": "none"}, {"ret": "list", "x": 2}, {"trigger_type": "mine"}, {"context": "c", "x": 1}, {"x": None}]
+RETS = {"empty": {}, "falsy": {"count": 0, "name": "", "items": []}, "none": None, "list": [1, 2]}
+NOT_A_DICT = ("none", "list")
 
 
 def answer(gen, data):
     """what the generated @service function of generation `gen` returns for this call data"""
-    r = RETS.get(data.get("ret"))
-    return {"gen": gen, "tag": data.get("tag")} if r is None else r
+    r = data.get("ret")
+    return RETS[r] if isinstance(r, str) and r in RETS else {"gen": gen, "tag": data.get("tag")}
+
+
+# the parameter lists of the generated service functions: every parameter kind.  `merge` rebuilds the complete keyword
+# dictionary inside the function (so that one record format serves all); `defaults` are the parameters python fills in
+# when the data does not give them (the harness drops exactly those from the record again).
+ALLP = ["trigger_type", "context", "x", "ret", "tag", "delay"]
+SIGS = [
+    {"src": "**kw", "merge": None, "required": [], "params": [], "extra": True, "defaults": {}},
+    {"src": "x=None, *, y=0, **kw", "merge": "kw = dict(kw, x=x, y=y)", "required": [], "params": ["x", "y"], "extra": True,
+     "defaults": {"x": None, "y": 0}},
+    {"src": "x, y=2, **kw", "merge": "kw = dict(kw, x=x, y=y)", "required": ["x"], "params": ["x", "y"], "extra": True,
+     "defaults": {"y": 2}},
+    {"src": ", ".join(f"{a}=None" for a in ALLP), "merge": "kw = dict(" + ", ".join(f"{a}={a}" for a in ALLP) + ")",
+     "required": [], "params": ALLP, "extra": False, "defaults": {"x": None, "ret": None, "tag": None, "delay": None}},
+    {"src": "*args, **kw", "merge": "kw = dict(kw, _args=list(args)) if args else kw", "required": [], "params": [],
+     "extra": True, "defaults": {}},
+]
+# doc strings: plain, a yaml description without fields, a yaml document that is only a comment
+DOCS = ["gen {g}", "yaml\\ndescription: gen {g}\\n", "yaml\\n# gen {g}\\n"]
+
+
+def bind_ok(sig, keys):
+    """python's binding of func(**kwargs) for the parameter list SIGS[sig]"""
+    sg = SIGS[sig]
+    return all(r in keys for r in sg["required"]) and (sg["extra"] or all(k in sg["params"] for k in keys))
+
+
+def sig_map(p):
+    m = {}
+    for o in p["ops"]:
+        for df in (o["defs"] if o["k"] == "load" else [o] if o["k"] == "rundef" else []):
+            m[df["gen"]] = df.get("sig", 0)
+    return m
+
+
+def low(decl):
+    """Home Assistant's service registry lower-cases domain and service name: that is the service a declaration means"""
+    return [(x[0].lower(), x[1]) for x in decl]
 
 
 # the script-side caller: an event-triggered function in a context of its own (no @service in it)
@@ -113,11 +167,11 @@ def apply_op(d, o):
     if k == "load":
         d.unload(o["ctx"])
         for df in o["defs"]:
-            d.define(o["ctx"], None, df["var"], df["gen"], [tuple(x) for x in df["decl"]])
+            d.define(o["ctx"], None, df["var"], df["gen"], low(df["decl"]))
     elif k == "unload":
         d.unload(o["ctx"])
     elif k == "rundef":
-        d.define(o["ctx"], o["fn"], o["var"], o["gen"], [tuple(x) for x in o["decl"]])
+        d.define(o["ctx"], o["fn"], o["var"], o["gen"], low(o["decl"]))
     elif k == "rundel":
         d.delete(o["ctx"], o["var"])
 
@@ -227,6 +281,11 @@ class LifeGen:
             if not self.d.declaring(s):
                 self.evalowner.pop(s)
 
+    def extras(self):
+        """parameter list, doc-string form, an additional trigger decorator"""
+        r = self.rng
+        return {"sig": r.choices([0, 1, 2, 3, 4], [6, 2, 2, 2, 1])[0], "doc": r.choice([0, 0, 1, 2]), "trig": r.random() < 0.2}
+
     def clean_decl(self, ctx, fn, exclude=()):
         r = self.rng
         free = [s for s in self.free_for(ctx, fn) if s not in exclude]
@@ -236,7 +295,7 @@ class LifeGen:
             return [[r.choice(taken), r.choice(RESPS)]]
         if not free:
             return None
-        names = r.sample(free, min(len(free), r.choice([1, 1, 2])))
+        names = r.sample(free, min(len(free), r.choice([1, 1, 2, 3])))
         return [[s, r.choice(RESPS)] for s in names]
 
     def clean_load(self, ctx):
@@ -253,14 +312,14 @@ class LifeGen:
             vs = list(VARS)
             if not free or not vs:
                 break
-            names = r.sample(free, min(len(free), r.choice([1, 1, 2])))
+            names = r.sample(free, min(len(free), r.choice([1, 1, 2, 3])))
             var = r.choice(vs)
             if self.legacy and var in usedv:
                 # a legacy redefinition inside a file is clean only if it keeps the older function's shared names
                 pass
             used.update(names)
             usedv.add(var)
-            defs.append({"var": var, "gen": self.next_gen(), "decl": [[s, r.choice(RESPS)] for s in names]})
+            defs.append({"var": var, "gen": self.next_gen(), "decl": [[s, r.choice(RESPS)] for s in names], **self.extras()})
         self.d.funcs, self.evalowner = saved
         if not defs:
             return None
@@ -279,7 +338,8 @@ class LifeGen:
         elif kind == "rundef":
             ctx, fn = r.choice(sorted(self.loaded)), r.choice(FNS)
             decl = self.clean_decl(ctx, fn)
-            o = decl and {"k": "rundef", "ctx": ctx, "fn": fn, "var": r.choice(VARS), "gen": self.next_gen(), "decl": decl}
+            o = decl and {"k": "rundef", "ctx": ctx, "fn": fn, "var": r.choice(VARS), "gen": self.next_gen(), "decl": decl,
+                          **self.extras()}
         elif kind == "rundel":
             ctx = r.choice(sorted(self.loaded))
             live = [f["var"] for f in self.d.funcs if f["ctx"] == ctx]
@@ -332,7 +392,7 @@ def calls_for(svcs, rng):
 def hazard_cases(rng, legacy):
     """scenario families, each walking into exactly one recorded hazard"""
     R = lambda: rng.choice(RESPS)  # noqa: E731
-    s1, s2 = rng.sample(SVCS, 2)
+    s1, s2, s3 = rng.sample(SVCS, 3)
     c1, c2 = rng.sample(CTXS, 2)
     v1, v2 = rng.sample(VARS, 2)
     fam = []
@@ -397,14 +457,66 @@ def hazard_cases(rng, legacy):
         + [{"k": "call", "svc": sv, "rr": rr, "data": dict(data), **({"via": "script"} if via else {})}
            for sv, rr in ((s1, True), (s2, True), (s2, False)) for via in (False, True)
            for data in ({"ret": "empty"}, {"ret": "falsy"}, {"x": 1}) if rr or via]))
+    # non-dict answers (None, a list): fine without a response request, Home Assistant's error with one
+    fam.append(("answers-not-dict", [
+        {"k": "load", "ctx": c1, "defs": [{"var": v1, "gen": 1, "decl": [[s1, "optional"]]}, {"var": v2, "gen": 2, "decl": [[s2, "only"]]}]}]
+        + [{"k": "call", "svc": sv, "rr": rr, "data": dict(data), **({"via": "script"} if via else {})}
+           for sv, rr in ((s1, True), (s1, False), (s2, True), (s2, False)) for via in (False, True)
+           for data in ({"ret": "none"}, {"ret": "list"}) if rr or via or sv == s1]
+        + [{"k": "calls", "svc": s1, "rr": True, "datas": [{"tag": "t0", "delay": 0.05, "ret": "none"},
+                                                            {"tag": "t1", "delay": 0.05}, {"tag": "t2", "delay": 0.05, "ret": "list"}]}]))
+    # every parameter kind x data with missing / extra / colliding keys, asked with and without response, from
+    # Home Assistant and from a script, alone and overlapping
+    bdata = [{}, {"x": 1}, {"y": 1}, {"x": 1, "y": 2, "z": 3}, {"trigger_type": "mine"}, {"context": "c", "x": 1},
+             {"x": None}, {"ret": "none", "x": 1}]
+    for sigs in ((2, 3, 1), (4, 0, 3)):
+        fam.append(("binding", [
+            {"k": "load", "ctx": c1, "defs": [{"var": "f", "gen": 1, "decl": [[s1, "optional"]], "sig": sigs[0]},
+                                              {"var": "g", "gen": 2, "decl": [[s2, "optional"]], "sig": sigs[1], "doc": 1},
+                                              {"var": "h", "gen": 3, "decl": [[s3, "optional"]], "sig": sigs[2], "doc": 2, "trig": True}]}]
+            + [{"k": "call", "svc": sv, "rr": rr, "data": dict(data)} for sv in (s1, s2, s3) for data in bdata for rr in (False, True)]
+            + [{"k": "call", "svc": sv, "rr": j % 2 == 0, "data": dict(data), "via": "script"}
+               for sv in (s1, s2) for j, data in enumerate(bdata)]
+            + [{"k": "calls", "svc": s1, "rr": True, "datas": [{"tag": "t0", "delay": 0.05, "x": 1}, {"tag": "t1", "delay": 0.05},
+                                                                {"tag": "t2", "delay": 0.05, "x": 2, "zz": 1}]},
+               {"k": "rundef", "ctx": c1, "fn": "opA", "var": "f", "gen": 4, "decl": [[s1, "optional"]], "sig": sigs[1]}]
+            + [{"k": "call", "svc": s1, "rr": True, "data": dict(data)} for data in bdata]))
+    # three services on one function, unusual names and a foreign domain, a trigger decorator beside them, yaml doc strings
+    fam.append(("names", [
+        {"k": "load", "ctx": c1, "defs": [{"var": v1, "gen": 1, "trig": True, "doc": 1,
+                                           "decl": [["pyscript.s_1x", "none"], ["my_dom.do_it2", "optional"], ["test.s3", "only"]]},
+                                          {"var": v2, "gen": 2, "trig": True, "doc": 2, "decl": [["pyscript.s1", R()]]}]}]
+        + calls_for(["pyscript.s_1x", "my_dom.do_it2", "test.s3", "pyscript.s1"], rng) + [
+        {"k": "rundef", "ctx": c1, "fn": "opA", "var": v1, "gen": 3, "trig": True, "doc": 2,
+         "decl": [["my_dom.do_it2", "only"], ["pyscript.s_1x", "optional"]]}]
+        + calls_for(["pyscript.s_1x", "my_dom.do_it2", "test.s3"], rng) + [
+        {"k": "rundel", "ctx": c1, "fn": "opB", "var": v1}] + calls_for(["pyscript.s_1x", "my_dom.do_it2", "pyscript.s1"], rng) + [
+        {"k": "unload", "ctx": c1}] + calls_for(["pyscript.s1"], rng)))
     return [{"kind": "life", "legacy": legacy, "ops": ops, "family": name} for name, ops in fam]
 
 
+def probe_cases(legacy):
+    """names that differ only in case: Home Assistant's registry lower-cases them, so they are ONE service (oracle only:
+    the model's tables are keyed by the name as written)"""
+    out = []
+    calls = [{"k": "call", "svc": "pyscript.case1", "rr": False, "data": {"x": 1}}]
+    out.append({"kind": "life", "legacy": legacy, "probe": "case-variant", "svcs": ["pyscript.case1"], "ops": [
+        {"k": "load", "ctx": "a", "defs": [{"var": "f", "gen": 1, "decl": [["pyscript.Case1", "none"]]},
+                                           {"var": "g", "gen": 2, "decl": [["pyscript.case1", "none"]]}]}] + calls + [
+        {"k": "rundel", "ctx": "a", "fn": "opA", "var": "f"}] + calls + [{"k": "unload", "ctx": "a"}] + calls})
+    out.append({"kind": "life", "legacy": legacy, "probe": "case-variant-one-function", "svcs": ["pyscript.case1"], "ops": [
+        {"k": "load", "ctx": "a", "defs": [{"var": "f", "gen": 1, "decl": [["pyscript.Case1", "none"], ["pyscript.case1", "none"]]}]}]
+        + calls + [{"k": "rundef", "ctx": "a", "fn": "opA", "var": "f", "gen": 2, "decl": [["pyscript.CASE1", "optional"]]}] + calls + [
+        {"k": "rundel", "ctx": "a", "fn": "opA", "var": "f"}] + calls})
+    return out
+
+
+# right-typed values, wrong-typed ones, and falsy values that are not of the control's type (0, '', None, {}, 0.0)
 OUT_KEYS = {
-    "context": [("context", None), ("other", 7)],
-    "blocking": [("bool", True), ("bool", False), ("other", "yes"), ("int", 1)],
-    "return_response": [("bool", True), ("bool", False), ("other", "no")],
-    "limit": [("int", 5), ("float", 2.5), ("bool", True), ("other", "10")],
+    "context": [("context", None), ("other", 7), ("other", None), ("other", ""), ("other", {})],
+    "blocking": [("bool", True), ("bool", False), ("other", "yes"), ("int", 1), ("int", 0), ("other", ""), ("other", None)],
+    "return_response": [("bool", True), ("bool", False), ("other", "no"), ("int", 0), ("int", 1), ("other", None), ("other", "")],
+    "limit": [("int", 5), ("float", 2.5), ("bool", True), ("other", "10"), ("int", 0), ("float", 0.0), ("other", None)],
     "x": [("other", 1), ("other", "v")],
     "entity_id": [("other", "test.other")],
 }
@@ -427,7 +539,7 @@ def out_cases(rng, n):
 
 
 def gen_cases(rng, tier, search):
-    n = 140 if tier == "quick" else 1500
+    n = 124 if tier == "quick" else 1500
     if search:
         n *= 3
     payloads = []
@@ -435,6 +547,7 @@ def gen_cases(rng, tier, search):
         for legacy in (True, False):
             for _ in range(2 if tier == "quick" else 12):
                 payloads += hazard_cases(rng, legacy)
+            payloads += probe_cases(legacy)
     for i in range(n):
         payloads.append(clean_case(rng, i))
     payloads += out_cases(rng, 72 if tier == "quick" else 600)
@@ -450,18 +563,25 @@ def tags_of(p):
     t = [p["kind"], "legacy" if p["legacy"] else "new"]
     if p.get("family"):
         t.append("family:" + p["family"])
+    if p.get("probe"):
+        t.append("probe:" + p["probe"])
     return t
 
 
 # ------------------------------------------------------------------ script generation
-def func_src(var, gen, decl, indent, multi=False):
+def func_src(var, gen, decl, indent, df=None):
     pad = " " * indent
+    df = df or {}
+    sg = SIGS[df.get("sig", 0)]
     lines = []
     for s, r in decl:
         lines.append(f"{pad}@service({s!r}, supports_response={r!r})" if r != "none" else f"{pad}@service({s!r})")
+    if df.get("trig"):
+        lines.append(f"{pad}@event_trigger('nev_{gen}')")
     # `delay` in the call data makes the function suspend between receiving its arguments and using them; what it
     # records and returns afterwards is what it sees THEN.  task.current_task() ties both records to the call.
-    lines += [f"{pad}def {var}(**kw):", f'{pad}    """gen {gen}"""',
+    lines += [f"{pad}def {var}({sg['src']}):", f'{pad}    "{DOCS[df.get("doc", 0)].format(g=gen)}"'] + \
+             ([f"{pad}    {sg['merge']}"] if sg["merge"] else []) + [
               f"{pad}    rec('enter', {gen}, kw.get('tag'), task.current_task())",
               f"{pad}    if kw.get('delay'):",
               f"{pad}        task.sleep(kw['delay'])",
@@ -470,6 +590,10 @@ def func_src(var, gen, decl, indent, multi=False):
               f"{pad}        return {{}}",
               f"{pad}    if kw.get('ret') == 'falsy':",
               f"{pad}        return {{'count': 0, 'name': '', 'items': []}}",
+              f"{pad}    if kw.get('ret') == 'none':",
+              f"{pad}        return None",
+              f"{pad}    if kw.get('ret') == 'list':",
+              f"{pad}        return [1, 2]",
               f"{pad}    return {{'gen': {gen}, 'tag': kw.get('tag')}}"]
     return lines
 
@@ -478,7 +602,7 @@ def file_src(ctx, defs, later_ops):
     """file-level definitions + the driver functions for the run-time operations that follow (until the next load)"""
     lines = []
     for df in defs:
-        lines += func_src(df["var"], df["gen"], [tuple(x) for x in df["decl"]], 0) + [""]
+        lines += func_src(df["var"], df["gen"], [tuple(x) for x in df["decl"]], 0, df) + [""]
     for fn in FNS:
         mine = [(i, o) for i, o in later_ops if o["fn"] == fn]
         lines += [f"@event_trigger('ev_{ctx}_{fn}')", f"def {fn}(k=None, **kw):", "    global " + ", ".join(VARS)]
@@ -487,7 +611,7 @@ def file_src(ctx, defs, later_ops):
             lines.append(f"    {'if' if first else 'elif'} k == {i}:")
             first = False
             if o["k"] == "rundef":
-                lines += func_src(o["var"], o["gen"], [tuple(x) for x in o["decl"]], 8)
+                lines += func_src(o["var"], o["gen"], [tuple(x) for x in o["decl"]], 8, o)
             else:
                 lines.append(f"        del {o['var']}")
         if first:
@@ -534,7 +658,7 @@ def gen_of_callback(cb):
             if type(v).__name__ == "EvalFunc":
                 ef = v
     doc = getattr(ef, "doc_string", None) or ""
-    m = re.match(r"gen (\d+)", doc)
+    m = re.search(r"gen (\d+)", doc)
     return int(m.group(1)) if m else -1
 
 
@@ -561,10 +685,38 @@ def observe(hass, svcs):
     return out
 
 
+def seen_kwargs(kw, data, sig):
+    """the recorded keyword dictionary without the parameters python filled in with their defaults"""
+    d = SIGS[sig]["defaults"]
+    return sorted([k, canon(v)] for k, v in kw.items() if not (k in d and k not in data and v == d[k]))
+
+
+def call_outcome(exc, n_enter, mine, result, rr_flag, data, sigs):
+    """one call as the caller and the function saw it.  exc: name of the exception the caller got (or None); n_enter:
+    how often the function body was entered for this call; mine: its records made after the suspension point"""
+    named = {"ServiceNotFound": "notfound", "ServiceValidationError": "invalid", "KeyError": "keyerror"}
+    if exc in named:
+        return {"call": named[exc], "response": None}
+    if exc == "HomeAssistantError":
+        # Home Assistant got something that is not a dict though a response was requested: either the function gave
+        # it, or the handler could not bind the data to the parameters (TypeError, logged) and gave None
+        if n_enter == 0 and not mine:
+            return {"call": "binderror", "response": None}
+        if len(mine) == 1:
+            return {"call": "badresponse", "response": None}
+    if exc is not None:
+        return {"call": ["raise", exc], "response": None}
+    if n_enter == 0 and not mine and result is None:
+        return {"call": "binderror", "response": canon(None)}
+    if len(mine) != 1:
+        return {"call": ["harness", f"{len(mine)} call records"], "response": canon(result)}
+    gen = mine[0][2]
+    return {"call": ["ran", gen, seen_kwargs(mine[0][3], data, sigs.get(gen, 0)), 1 if rr_flag else 0], "response": canon(result)}
+
+
 def run_life(p):
     from ha_env import run_ha
     from custom_components.pyscript.function import Function
-    from homeassistant.exceptions import ServiceNotFound, ServiceValidationError
     events = []
     orig_reg = Function.service_register.__func__
     orig_rem = Function.service_remove.__func__
@@ -580,7 +732,8 @@ def run_life(p):
         return orig_rem(cls, ctxname, domain, service)
 
     ops = p["ops"]
-    svcs = SVCS
+    svcs = p.get("svcs", SVCS)
+    sigs = sig_map(p)
 
     async def settle(env, full=False):
         # reference counting drops a function object at once; a full collection (0.1-0.2 s with Home Assistant loaded)
@@ -639,21 +792,10 @@ def run_life(p):
                             results.append({"call": ["harness", "call did not finish"], "response": None})
                             continue
                         exc = t.exception()
-                        if isinstance(exc, ServiceNotFound):
-                            results.append({"call": "notfound", "response": None})
-                        elif isinstance(exc, ServiceValidationError):
-                            results.append({"call": "invalid", "response": None})
-                        elif exc is not None:
-                            results.append({"call": ["raise", type(exc).__name__], "response": None})
-                        else:
-                            mine = [r for r in recs if r[1] == "call" and r[4] is task_of.get(data.get("tag"))]
-                            if len(mine) != 1:
-                                results.append({"call": ["harness", f"{len(mine)} call records for tag {data.get('tag')}"],
-                                                "response": canon(t.result())})
-                            else:
-                                kw = mine[0][3]
-                                results.append({"call": ["ran", mine[0][2], sorted([kk, canon(vv)] for kk, vv in kw.items()),
-                                                         1 if o["rr"] else 0], "response": canon(t.result())})
+                        tk = task_of.get(data.get("tag"))
+                        mine = [r for r in recs if r[1] == "call" and tk is not None and r[4] is tk]
+                        results.append(call_outcome(type(exc).__name__ if exc is not None else None, 0 if tk is None else 1,
+                                                    mine, None if exc is not None else t.result(), o["rr"], data, sigs))
                     steps.append({"calls": results})
                 elif o.get("via") == "script":
                     dom, name = o["svc"].split(".")
@@ -661,40 +803,25 @@ def run_life(p):
                     await env.settle(0)
                     rel = [r for r in env.records[nrec:] if r[1] == "relay" and r[2] == i]
                     recs = [r for r in env.records[nrec:] if r[1] == "call"]
+                    nent = len([r for r in env.records[nrec:] if r[1] == "enter"])
                     if len(rel) != 1:
                         steps.append({"call": ["harness", f"{len(rel)} relay records"], "response": None})
                     elif rel[0][3] == "exc":
-                        name_ = rel[0][4]
-                        res = {"ServiceNotFound": "notfound", "ServiceValidationError": "invalid",
-                               "KeyError": "keyerror"}.get(name_, ["raise", name_])
-                        steps.append({"call": res, "response": None})
-                    elif len(recs) != 1:
-                        steps.append({"call": ["harness", f"{len(recs)} call records"], "response": canon(rel[0][4])})
+                        steps.append(call_outcome(rel[0][4], nent, recs, None, True, o["data"], sigs))
                     else:
-                        kw = recs[0][3]
-                        steps.append({"call": ["ran", recs[0][2], sorted([kk, canon(vv)] for kk, vv in kw.items()),
-                                               0 if rel[0][4] is None else 1], "response": canon(rel[0][4])})
+                        steps.append(call_outcome(None, nent, recs, rel[0][4], rel[0][4] is not None, o["data"], sigs))
                 else:
                     dom, name = o["svc"].split(".")
+                    exc = resp = None
                     try:
                         resp = await env.hass.services.async_call(dom, name, dict(o["data"]), blocking=True,
                                                                   return_response=o["rr"])
-                        await env.settle(0)
-                        recs = [r for r in env.records[nrec:] if r[1] == "call"]
-                        if len(recs) != 1:
-                            res = ["harness", f"{len(recs)} call records"]
-                        else:
-                            kw = recs[0][3]
-                            res = ["ran", recs[0][2], sorted([kk, canon(vv)] for kk, vv in kw.items()), 1 if o["rr"] else 0]
-                            steps.append({"call": res, "response": canon(resp)})
-                            continue
-                    except ServiceNotFound:
-                        res = "notfound"
-                    except ServiceValidationError:
-                        res = "invalid"
                     except Exception as e:  # an exception of the called code is an outcome
-                        res = ["raise", type(e).__name__]
-                    steps.append({"call": res, "response": None})
+                        exc = type(e).__name__
+                    await env.settle(0)
+                    recs = [r for r in env.records[nrec:] if r[1] == "call"]
+                    nent = len([r for r in env.records[nrec:] if r[1] == "enter"])
+                    steps.append(call_outcome(exc, nent, recs, resp, o["rr"], o["data"], sigs))
         finally:
             Function.service_register = classmethod(orig_reg)
             Function.service_remove = classmethod(orig_rem)
@@ -814,7 +941,7 @@ def run_impl(cases):
             p["_obs"] = r["obs"]
             if p["kind"] == "life":
                 c.impl = render_life_impl(p)
-                c.line = life_line(p)
+                c.line = None if p.get("probe") else life_line(p)
             else:
                 c.impl = render_out_impl(p)
                 c.line = out_line(p)
@@ -845,7 +972,8 @@ def life_line(p):
         else:
             dops.append(["scall" if o.get("via") == "script" else "call", o["svc"], 1 if o["rr"] else 0, "CTX",
                          sorted([kk, canon(vv)] for kk, vv in o["data"].items())])
-    return "C12 " + sx(["life", "legacy" if p["legacy"] else "new", SVCS, dops])
+    sigs = [[g, SIGS[sg]["required"], SIGS[sg]["params"], SIGS[sg]["extra"]] for g, sg in sorted(sig_map(p).items())]
+    return "C12 " + sx(["life", "legacy" if p["legacy"] else "new", SVCS, sigs, dops])
 
 
 def render_life_impl(p):
@@ -936,11 +1064,22 @@ def split(outline):
 
 
 # ------------------------------------------------------------------ verdict: the property on the observations
-def judge_call(d, bad, i, svc, rr, data, st, what, pre):
+def judge_call(d, bad, i, svc, rr, data, st, what, pre, sigs):
     """one call (alone or overlapping with others): the most recent live definition runs with THIS call's data plus
-    trigger_type='service' and context, and THIS call gets its result back when a response is requested"""
+    trigger_type='service' and context (the data wins over both), and THIS call gets its result back when a response is
+    requested.  Data that does not fit the function's parameters never runs it; an answer that is not a dict is
+    Home Assistant's error when a response was requested."""
     want = d.handler(svc)
     got = st["call"]
+
+    def ran_as(rr_):
+        kw = {"trigger_type": canon("service"), "context": "CTX"}
+        kw.update({k: canon(v) for k, v in data.items()})
+        if not bind_ok(sigs.get(want[0], 0), kw):
+            return "binderror"
+        if rr_ and data.get("ret") in NOT_A_DICT:
+            return "badresponse"
+        return ["ran", want[0], sorted([k, v] for k, v in kw.items()), 1 if rr_ else 0]
     if want is None:
         # (a script calling a service that does not exist gets KeyError from hass.services.supports_response instead of
         #  ServiceNotFound when it did not pass return_response: the property does not fix the exception class)
@@ -948,19 +1087,11 @@ def judge_call(d, bad, i, svc, rr, data, st, what, pre):
     elif (rr and want[1] == "none") or (not rr and want[1] == "only"):
         exp = "invalid"
     else:
-        kw = {"trigger_type": canon("service"), "context": "CTX"}
-        kw.update({k: canon(v) for k, v in data.items()})
-        exp = ["ran", want[0], sorted([k, v] for k, v in kw.items()), 1 if rr else 0]
-    if exp == "invalid" and not rr and isinstance(got, list) and got[0] == "ran" and got[1] == want[0]:
+        exp = ran_as(rr)
+    if exp == "invalid" and not rr and got != "invalid" and norm_call(got) == ran_as(False):
         # Home Assistant's "this service only returns a response" refusal is not part of the property: the legacy
         # subsystem hands HA the string "only" instead of the enum, HA then runs the call (nothing is returned)
         exp = got = None
-        kw = {"trigger_type": canon("service"), "context": "CTX"}
-        kw.update({k: canon(v) for k, v in data.items()})
-        if norm_call(st["call"])[2] != sorted([k, v] for k, v in kw.items()):
-            bad.append((i, {svc}, pre + "call-kwargs", f"step {i} {what}{svc}: ran with {norm_call(st['call'])[2]!r:.200} "
-                                                       f"instead of this call's data {sorted(kw.items())!r:.200}"))
-            return
     if norm_call(got) != exp:
         sym = "call"
         if isinstance(got, list) and got[0] == "ran" and isinstance(exp, list) and got[2] != exp[2]:
@@ -979,6 +1110,7 @@ def judge_life(p):
     """[(step, services, symptom, text)] – every step at which the real code is not in the state the declarations demand"""
     d = Decls()
     bad = []
+    sigs = sig_map(p)
     for i, (o, st) in enumerate(zip(p["ops"], p["_obs"])):
         if o["k"] not in ("call", "calls"):
             apply_op(d, o)
@@ -999,13 +1131,13 @@ def judge_life(p):
                 bad.append((i, set(SVCS), "remove-underflow", f"step {i}: service_remove reached with count 0: {st['events']}"))
         elif o["k"] == "calls":
             for j, (data, res) in enumerate(zip(o["datas"], st["calls"])):
-                judge_call(d, bad, i, o["svc"], o["rr"], data, res, f"overlapping call {j + 1}/{len(o['datas'])} of ", "overlap-")
+                judge_call(d, bad, i, o["svc"], o["rr"], data, res, f"overlapping call {j + 1}/{len(o['datas'])} of ", "overlap-", sigs)
         elif o.get("via") == "script":
             # a script's service.call: a response-only service is asked for its response by pyscript itself
             w = d.handler(o["svc"])
-            judge_call(d, bad, i, o["svc"], o["rr"] or bool(w and w[1] == "only"), o["data"], st, "script-side call ", "script-")
+            judge_call(d, bad, i, o["svc"], o["rr"] or bool(w and w[1] == "only"), o["data"], st, "script-side call ", "script-", sigs)
         else:
-            judge_call(d, bad, i, o["svc"], o["rr"], o["data"], st, "call ", "")
+            judge_call(d, bad, i, o["svc"], o["rr"], o["data"], st, "call ", "", sigs)
     return bad
 
 
@@ -1092,6 +1224,8 @@ def classify(c, reason):
     if not bad:
         return "life:none"
     b = pick(p, bad)
+    if p.get("probe"):
+        return f"probe:{sub}:{p['probe']}:{b[2]}"
     kind = explain(hazards(p), b)
     return f"life:{sub}:{kind or 'clean'}:{b[2]}"
 
@@ -1123,7 +1257,7 @@ def shrink(c, reason):
         if r and classify(cc, r) == sig:
             ops, best = trial, cc
         i -= 1
-    if best is not c:
+    if best is not c and best.line is not None:
         outs = common.drive([best.line])
         best.model, best.spec = split(outs[0])
     return best
@@ -1131,6 +1265,7 @@ def shrink(c, reason):
 
 def extra_coverage(cases):
     ops, fam, sym, regorder = {}, {}, {}, {"new-loads-with-several-managers": 0, "not-in-definition-order": 0}
+    shapes = {"parameter_lists": {}, "doc_string_forms": {}, "names_per_function": {}, "with_trigger_decorator": 0, "service_names": {}}
     calls = {"ran": 0, "notfound": 0, "invalid": 0}
     for c in cases:
         p = c.payload
@@ -1138,6 +1273,13 @@ def extra_coverage(cases):
             continue
         for o, st in zip(p["ops"], p.get("_obs", [])):
             ops[o["k"]] = ops.get(o["k"], 0) + 1
+            for df in (o["defs"] if o["k"] == "load" else [o] if o["k"] == "rundef" else []):
+                for key, v in (("parameter_lists", SIGS[df.get("sig", 0)]["src"]), ("doc_string_forms", DOCS[df.get("doc", 0)]),
+                               ("names_per_function", str(len(df["decl"])))):
+                    shapes[key][v] = shapes[key].get(v, 0) + 1
+                shapes["with_trigger_decorator"] += 1 if df.get("trig") else 0
+                for s_, _r in df["decl"]:
+                    shapes["service_names"][s_] = shapes["service_names"].get(s_, 0) + 1
             if o["k"] == "call":
                 k = st["call"][0] if isinstance(st["call"], list) else st["call"]
                 calls[k] = calls.get(k, 0) + 1
@@ -1155,6 +1297,6 @@ def extra_coverage(cases):
         for b in judge_life(p) if "_obs" in p else []:
             sym[b[2]] = sym.get(b[2], 0) + 1
     return {"op_histogram": ops, "hazard_situations_entered": fam, "deviation_symptoms_seen": sym,
-            "call_outcomes": calls, "manager_start_order": regorder,
+            "call_outcomes": calls, "manager_start_order": regorder, "definition_shapes": shapes,
             "outgoing_entry_points": {e: len([c for c in cases if c.payload.get("entry") == e])
                                       for e in ("service_call", "domain_service", "entity_method")}}
